@@ -66,11 +66,23 @@ impl Run {
                 b.truncate(b.len() - 3);
                 Some((b, addr(from)))
             }
+            "big" => {
+                // the largest answer an honest node sends: a 1000-byte mutable value with key, signature, token and twenty nodes
+                // (about 1.7 kB, inside the 2 048 bytes a node reads)
+                let mut r = crate::bencode::B::dict();
+                r.set("nodes", crate::bencode::B::bytes(&[0x42u8; 26 * 20][..]));
+                r.set("v", crate::bencode::B::bytes(&[b'v'; 1000][..]));
+                r.set("k", crate::bencode::B::bytes(&[1u8; 32][..]));
+                r.set("sig", crate::bencode::B::bytes(&[2u8; 64][..]));
+                r.set("seq", crate::bencode::B::Int(7));
+                r.set("token", crate::bencode::B::bytes(&[3u8; 4][..]));
+                Some((krpc::response(&t, &[7u8; 20], r, Some(&addr("a"))).encode(), addr(from)))
+            }
             _ => Some((krpc::response(&t, &[7u8; 20], crate::bencode::B::dict(), None).encode(), addr(from))),
         };
         let handed = self.sock.recv(input).is_some();
         let (present, cap, next, _) = self.snap();
-        let answers = kind == "resp" || kind == "err";
+        let answers = kind == "resp" || kind == "err" || kind == "big";
         let first = answers && self.replied.insert((tid as u32, from.to_string()));
         out.line(&json!({"e":"op","op":"recv","tid":tid,"from":from,"kind":kind,
             "timeout_ms":timeout.0,"timeout_hi_ms":timeout.1,"handed":handed,"present_before":before,"present":present,"cap":cap,"next_tid":next,"first_reply":first}));
@@ -126,7 +138,11 @@ fn random(b: u64, rng: &mut Rng, len: usize, out: &mut Out) -> u64 {
                 // a reply to one of the requests (often a recent one), from the right address
                 let i = r.sent.len() - 1 - rng.below(r.sent.len().min(6) as u64) as usize;
                 let (t, to) = r.sent[i].clone();
-                r.recv(t as i64, &to, rng.chance(1, 5), out);
+                if rng.chance(1, 4) {
+                    r.recv_kind(t as i64, &to, "big", out);
+                } else {
+                    r.recv(t as i64, &to, rng.chance(1, 5), out);
+                }
             }
             60..=69 if !r.sent.is_empty() => {
                 // a spoof: right id from a wrong address, or a guessed neighbouring id
